@@ -456,6 +456,42 @@ fn step(w: &mut World, ctx: &mut Ctx, st: &Step) -> StepResult {
             };
             push_plain(w, ctx, e, "DecoSign")
         }
+        "DecoNestedAssertion" => {
+            // an assertion element that is an assertion with assertions, restored as the subject of a further node
+            // (compress it, add an assertion, uncompress the subject): accepted wherever an assertion is, so every
+            // query that reads predicates and objects has to cope with it
+            let o = w.idx(st.arg(1)).unwrap_or(d);
+            let other = w.docs[o].env.clone();
+            let p = pred_arg(st.arg(2));
+            let inner = Envelope::new_assertion(p.clone(), other).add_assertion("since", (st.arg(3) % 40) as u32);
+            let nested = match lib!("compress / add_assertion / uncompress_subject", inner.compress().and_then(|c| c.add_assertion("seen", 1).uncompress_subject())) {
+                Ok(x) => x,
+                Err(_) => return StepResult::Refused,
+            };
+            let e = match lib!("add_assertion_envelope", env.add_assertion_envelope(nested)) {
+                Ok(x) => x,
+                Err(_) => return StepResult::Refused,
+            };
+            ctx.checked();
+            ctx.probe("assertion-element-nested-two-levels");
+            let q = p.clone();
+            match guarded(|| {
+                let _ = e.assertions_with_predicate(q.clone());
+                let _ = e.assertion_with_predicate(q.clone()).is_ok();
+                let _ = e.object_for_predicate(q.clone()).is_ok();
+                let _ = e.objects_for_predicate(q.clone());
+                let _ = e.optional_object_for_predicate(q.clone()).is_ok();
+                let _ = e.extract_object_for_predicate::<String>(q.clone()).is_ok();
+                let _ = e.extract_objects_for_predicate::<String>(q.clone()).is_ok();
+                for a in e.assertions() {
+                    let _ = (a.as_assertion(), a.as_predicate(), a.as_object(), a.try_predicate().is_ok(), a.try_object().is_ok());
+                }
+            }) {
+                Ok(()) => {}
+                Err(pn) => ctx.violate_sig("C16.no-panic", format!("a predicate / object query panicked on an envelope with a two-level nested assertion element: {}", pn), pn),
+            }
+            push_plain(w, ctx, e, "DecoNestedAssertion")
+        }
         "DecoSaltAssertion" => {
             // give one existing assertion its own (salt) assertion: replace a[i] by a[i].add_salt()
             let asr = env.assertions();
@@ -700,7 +736,7 @@ pub fn generate(property: &str, r: &mut SimRng, seed: u64) -> Scenario {
     scn.steps.truncate(keep.max(2));
     // decorations and adversarial documents
     let nd = r.below(5);
-    let decos = ["DecoSalt", "DecoAddSalted", "DecoSign", "DecoSaltAssertion", "DecoRecipient", "DecoEncryptTo", "DecoSskr", "DecoType", "DecoAttachment", "DecoRequest", "DecoResponse", "Adversarial", "Adversarial", "DecoAddSalted", "DecoSaltAssertion"];
+    let decos = ["DecoNestedAssertion", "DecoSalt", "DecoAddSalted", "DecoSign", "DecoSaltAssertion", "DecoRecipient", "DecoEncryptTo", "DecoSskr", "DecoType", "DecoAttachment", "DecoRequest", "DecoResponse", "Adversarial", "Adversarial", "DecoAddSalted", "DecoSaltAssertion"];
     for _ in 0..nd {
         let mut op = *r.pick(&decos);
         // adversarially decoded documents are C16's input class only: what the decoder wrongly accepts (known
